@@ -4,6 +4,8 @@ package interp
 
 import (
 	"fmt"
+	"os"
+	"time"
 	"go/token"
 	"go/types"
 	"path/filepath"
@@ -159,6 +161,7 @@ func init() {
 		"ndBool":        ndBool,
 		"ndChoice":      ndChoice,
 		"ndStr":         ndStr,
+		"ndIdent":       ndIdent,
 		"ndAssume":      ndAssume,
 		"ndAssert":      ndAssert,
 		"ndAnd":         func(fr *frame, a []value) value { return fr.i.symBool2(a[0], a[1], mkAnd) },
@@ -238,6 +241,10 @@ func ndInt(fr *frame, a []value) value {
 	p.declare(c, "(_ BitVec 64)")
 	p.assert(fmt.Sprintf("(and (bvsle %s %s) (bvsle %s %s))", bvLit(uint64(lo), 64), c, c, bvLit(uint64(hi), 64)))
 	p.nd = append(p.nd, ndvar{name: name, kind: "int", bk: types.Int, term: c})
+	if p.intRanges == nil {
+		p.intRanges = map[string][2]int64{}
+	}
+	p.intRanges[c] = [2]int64{lo, hi}
 	return sym{types.Int, c}
 }
 
@@ -259,6 +266,20 @@ func ndStr(fr *frame, a []value) value {
 	p.declare(c, "String")
 	p.assert(fmt.Sprintf("(<= (str.len %s) %d)", c, max))
 	p.assert(fmt.Sprintf("(str.in_re %s (re.* (re.range \" \" \"~\")))", c))
+	p.nd = append(p.nd, ndvar{name: name, kind: "str", bk: types.String, term: c})
+	return sym{types.String, c}
+}
+
+// ndIdent(name, maxLen) string: a symbolic Go identifier ([A-Za-z_][A-Za-z0-9_]*) of bounded length.
+func ndIdent(fr *frame, a []value) value {
+	p := fr.i.path
+	name := ndName(a[0])
+	max := asInt64(a[1])
+	c := fmt.Sprintf("s%d_%s", len(p.nd), sanitize(name))
+	p.declare(c, "String")
+	p.assert(fmt.Sprintf("(<= (str.len %s) %d)", c, max))
+	letter := `(re.union (re.range "a" "z") (re.range "A" "Z") (str.to_re "_"))`
+	p.assert(fmt.Sprintf("(str.in_re %s (re.++ %s (re.* (re.union %s (re.range \"0\" \"9\")))))", c, letter, letter))
 	p.nd = append(p.nd, ndvar{name: name, kind: "str", bk: types.String, term: c})
 	return sym{types.String, c}
 }
@@ -337,7 +358,14 @@ func ndAssert(fr *frame, a []value) value {
 		atomic.AddInt64(&p.ex.res.AssertsChecked, 1)
 		p.sv.send("(push 1)")
 		p.sv.send("(assert " + mkNot(t) + ")")
+		t0 := time.Now()
 		r := p.sv.checkSat()
+		if (r == "unknown" || time.Since(t0) > 2*time.Second) && p.sv.log != nil {
+			n := atomic.AddInt64(&p.ex.dumpSeq, 1)
+			if n <= 20 {
+				os.WriteFile(fmt.Sprintf("%s/assert-%s-%d.smt2", p.ex.cfg.DumpDir, r, n), []byte(p.sv.log.String()), 0o644)
+			}
+		}
 		if r == "unknown" {
 			r = p.solveFresh(mkNot(t))
 			if r == "sat" {
